@@ -15,6 +15,11 @@ Definition src_nameb (x : str) : bool :=
 Definition ok_expr (B : list str) (e : expr) : bool :=
   pure e && lits_ok e && forallb (fun x => src_nameb x && mem_str x B) (used_e e).
 Definition arith5 (o : binop) : bool := match o with BAdd | BSub | BMul | BDiv | BMod => true | _ => false end.
+(* loop bounds that need no temporary register: a literal or a variable *)
+Definition simple_expr (B : list str) (e : expr) : bool :=
+  match e with EInt z => i32_ok z | EVar y => src_nameb y && mem_str y B | _ => false end.
+Definition step_ok (st : option expr) : bool :=
+  match st with None => true | Some (EInt z) => i32_ok z | Some _ => false end.
 
 Fixpoint ok_stmt (il : bool) (B : list str) (s : stmt) {struct s} : bool :=
   let fix okb (il : bool) (B : list str) (l : list stmt) {struct l} : bool :=
@@ -29,6 +34,8 @@ Fixpoint ok_stmt (il : bool) (B : list str) (s : stmt) {struct s} : bool :=
   | SIfElse c b e => ok_expr B c && okb il B b && okb il B e
   | SIfElif c b n => ok_expr B c && okb il B b && ok_stmt il B n
   | SWhile c b => ok_expr B c && okb true B b
+  | SFrom a b _ st (Some x) false body =>
+    src_nameb x && negb (mem_str x B) && ok_expr B a && simple_expr B b && step_ok st && okb true (x :: B) body
   | SBreak => il
   | SContinue => il
   | _ => false
@@ -44,6 +51,9 @@ Proof. reflexivity. Qed.
 Lemma ok_SIfElif : forall il B c b n, ok_stmt il B (SIfElif c b n) = ok_expr B c && ok_block il B b && ok_stmt il B n.
 Proof. reflexivity. Qed.
 Lemma ok_SWhile : forall il B c b, ok_stmt il B (SWhile c b) = ok_expr B c && ok_block true B b.
+Proof. reflexivity. Qed.
+Lemma ok_SFrom : forall il B a b incl st x body, ok_stmt il B (SFrom a b incl st (Some x) false body) =
+  src_nameb x && negb (mem_str x B) && ok_expr B a && simple_expr B b && step_ok st && ok_block true (x :: B) body.
 Proof. reflexivity. Qed.
 
 Lemma src_nameb_ok : forall x, src_nameb x = true -> uname x.
@@ -75,9 +85,12 @@ Proof.
 Qed.
 
 (* ================================================================ the direct code generator *)
-Fixpoint sitems (c : nat) (sl : option nat) (s : stmt) {struct s} : list citem :=
-  let fix bl (sl : option nat) (l : list stmt) {struct l} : list citem :=
-    match l with [] => [] | s :: l => sitems c sl s ++ bl sl l end in
+Definition step_code (c : nat) (st : option expr) : list citem :=
+  match st with Some e => map CI (pcode c e) | None => [I OP_MAKE_INT [s_one]] end.
+
+Fixpoint sitems (c : nat) (lr : nat) (sl : option nat) (s : stmt) {struct s} : list citem :=
+  let fix bl (lr : nat) (sl : option nat) (l : list stmt) {struct l} : list citem :=
+    match l with [] => [] | s :: l => sitems c lr sl s ++ bl lr sl l end in
   let inner := option_map S sl in
   match s with
   | SAssign x e => map CI (pcode c e) ++ [I OP_STORE [x]]
@@ -86,21 +99,31 @@ Fixpoint sitems (c : nat) (sl : option nat) (s : stmt) {struct s} : list citem :
   | SAssert e sp => map CI (pcode c e) ++ [I OP_ASSERT [sp]]
   | SExpr e => map CI (pcode c e) ++ [I OP_VOID []]
   | SIf cnd body =>
-    let cb := bl inner body ++ [I OP_DONE []] in
+    let cb := bl lr inner body ++ [I OP_DONE []] in
     map CI (pcode c cnd) ++ [I OP_IF_STMT [sN (length cb + 1)]] ++ cb
   | SIfElse cnd body els =>
-    let cb := bl inner body ++ [I OP_DONE []] in
-    let ce := I OP_ELSE_STMT [] :: bl inner els ++ [I OP_DONE []] in
+    let cb := bl lr inner body ++ [I OP_DONE []] in
+    let ce := I OP_ELSE_STMT [] :: bl lr inner els ++ [I OP_DONE []] in
     map CI (pcode c cnd) ++ [I OP_IF_STMT [sN (length cb + 2)]] ++ cb ++ [I OP_JMP [sN (length ce + 1)]] ++ ce
   | SIfElif cnd body nxt =>
-    let cb := bl inner body ++ [I OP_DONE []] in
-    let ce := I OP_ELSE_STMT [] :: sitems c inner nxt ++ [I OP_DONE []] in
+    let cb := bl lr inner body ++ [I OP_DONE []] in
+    let ce := I OP_ELSE_STMT [] :: sitems c lr inner nxt ++ [I OP_DONE []] in
     map CI (pcode c cnd) ++ [I OP_IF_STMT [sN (length cb + 2)]] ++ cb ++ [I OP_JMP [sN (length ce + 1)]] ++ ce
   | SWhile cnd body =>
     let cc := map CI (pcode c cnd) in
-    let cb0 := bl (Some 1) body in
+    let cb0 := bl lr (Some 1) body in
     let cb := cb0 ++ [I OP_JMP_POP [neg_off (1 + length cb0 + length cc)]] in
     cc ++ [I OP_WHILE_LOOP [sN (length cb + 1)]] ++ resolve (length cb) 0 0 cb
+  | SFrom a b incl step (Some x) false body =>
+    let endr := lregn (S lr) in
+    let cond := [I OP_LOAD_FAST [x]; I OP_LOAD_FAST [endr]; I OP_BIN_OP [if incl then op_le else op_lt]] in
+    let cbody := bl (S lr) (Some 1) body in
+    let cstep := step_code c step ++ [I OP_BIN_OP_ASSIGN [[43; 61]%N; x]] in
+    let full0 := cbody ++ cstep in
+    let full := full0 ++ [I OP_JMP_POP [neg_off (1 + length cond + length full0)]] in
+    map CI (pcode c a) ++ [I OP_STORE_FAST [x]] ++ map CI (pcode c b) ++ [I OP_STORE_FAST [endr]] ++ cond
+      ++ [I OP_WHILE_LOOP [sN (length full + 1)]] ++ resolve (length full) (length cstep) 0 full
+      ++ [I OP_DELETE_NAME_SCOPED [x; endr]]
   | SBreak => [CBrk (match sl with Some n => n | None => 0 end)]
   | SContinue => [CCont (match sl with Some n => n | None => 0 end)]
   | _ => []
@@ -108,29 +131,41 @@ Fixpoint sitems (c : nat) (sl : option nat) (s : stmt) {struct s} : list citem :
 
 Section BItems.
 Variable c : nat.
-Fixpoint bitems (sl : option nat) (l : list stmt) {struct l} : list citem :=
-  match l with [] => [] | s :: l => sitems c sl s ++ bitems sl l end.
+Fixpoint bitems (lr : nat) (sl : option nat) (l : list stmt) {struct l} : list citem :=
+  match l with [] => [] | s :: l => sitems c lr sl s ++ bitems lr sl l end.
 End BItems.
 
-Lemma sitems_SIf : forall c sl cnd body, sitems c sl (SIf cnd body) =
-  let cb := bitems c (option_map S sl) body ++ [I OP_DONE []] in
+Lemma sitems_SIf : forall c lr sl cnd body, sitems c lr sl (SIf cnd body) =
+  let cb := bitems c lr (option_map S sl) body ++ [I OP_DONE []] in
   map CI (pcode c cnd) ++ [I OP_IF_STMT [sN (length cb + 1)]] ++ cb.
 Proof. reflexivity. Qed.
-Lemma sitems_SIfElse : forall c sl cnd body els, sitems c sl (SIfElse cnd body els) =
-  let cb := bitems c (option_map S sl) body ++ [I OP_DONE []] in
-  let ce := I OP_ELSE_STMT [] :: bitems c (option_map S sl) els ++ [I OP_DONE []] in
+Lemma sitems_SIfElse : forall c lr sl cnd body els, sitems c lr sl (SIfElse cnd body els) =
+  let cb := bitems c lr (option_map S sl) body ++ [I OP_DONE []] in
+  let ce := I OP_ELSE_STMT [] :: bitems c lr (option_map S sl) els ++ [I OP_DONE []] in
   map CI (pcode c cnd) ++ [I OP_IF_STMT [sN (length cb + 2)]] ++ cb ++ [I OP_JMP [sN (length ce + 1)]] ++ ce.
 Proof. reflexivity. Qed.
-Lemma sitems_SIfElif : forall c sl cnd body nxt, sitems c sl (SIfElif cnd body nxt) =
-  let cb := bitems c (option_map S sl) body ++ [I OP_DONE []] in
-  let ce := I OP_ELSE_STMT [] :: sitems c (option_map S sl) nxt ++ [I OP_DONE []] in
+Lemma sitems_SIfElif : forall c lr sl cnd body nxt, sitems c lr sl (SIfElif cnd body nxt) =
+  let cb := bitems c lr (option_map S sl) body ++ [I OP_DONE []] in
+  let ce := I OP_ELSE_STMT [] :: sitems c lr (option_map S sl) nxt ++ [I OP_DONE []] in
   map CI (pcode c cnd) ++ [I OP_IF_STMT [sN (length cb + 2)]] ++ cb ++ [I OP_JMP [sN (length ce + 1)]] ++ ce.
 Proof. reflexivity. Qed.
-Lemma sitems_SWhile : forall c sl cnd body, sitems c sl (SWhile cnd body) =
+Lemma sitems_SWhile : forall c lr sl cnd body, sitems c lr sl (SWhile cnd body) =
   let cc := map CI (pcode c cnd) in
-  let cb0 := bitems c (Some 1) body in
+  let cb0 := bitems c lr (Some 1) body in
   let cb := cb0 ++ [I OP_JMP_POP [neg_off (1 + length cb0 + length cc)]] in
   cc ++ [I OP_WHILE_LOOP [sN (length cb + 1)]] ++ resolve (length cb) 0 0 cb.
+Proof. reflexivity. Qed.
+
+Lemma sitems_SFrom : forall c lr sl a b incl step x body, sitems c lr sl (SFrom a b incl step (Some x) false body) =
+  let endr := lregn (S lr) in
+  let cond := [I OP_LOAD_FAST [x]; I OP_LOAD_FAST [endr]; I OP_BIN_OP [if incl then op_le else op_lt]] in
+  let cbody := bitems c (S lr) (Some 1) body in
+  let cstep := step_code c step ++ [I OP_BIN_OP_ASSIGN [[43; 61]%N; x]] in
+  let full0 := cbody ++ cstep in
+  let full := full0 ++ [I OP_JMP_POP [neg_off (1 + length cond + length full0)]] in
+  map CI (pcode c a) ++ [I OP_STORE_FAST [x]] ++ map CI (pcode c b) ++ [I OP_STORE_FAST [endr]] ++ cond
+    ++ [I OP_WHILE_LOOP [sN (length full + 1)]] ++ resolve (length full) (length cstep) 0 full
+    ++ [I OP_DELETE_NAME_SCOPED [x; endr]].
 Proof. reflexivity. Qed.
 
 (* ================================================================ cstmt = sitems on the fragment *)
@@ -176,11 +211,31 @@ Lemma cstmt_SWhile : forall c sl cnd body st, cstmt path c sl (SWhile cnd body) 
   (cc ++ [I OP_WHILE_LOOP [sN (length cb + 1)]] ++ resolve (length cb) 0 0 cb, st).
 Proof. reflexivity. Qed.
 
+Lemma cstmt_SFrom : forall c sl a b incl step x body st,
+  cstmt path c sl (SFrom a b incl step (Some x) false body) st =
+  let '(ca, st) := cexpr path c a st in
+  let '(cb_, st) := cexpr path c b st in
+  let endr := lregn (S (lreg st)) in
+  let st := {| fid := fid st; lreg := S (lreg st); fbuf := fbuf st |} in
+  let cond := [I OP_LOAD_FAST [x]; I OP_LOAD_FAST [endr]; I OP_BIN_OP [if incl then op_le else op_lt]] in
+  let '(cbody, st) := cblockT c (Some 1) body st in
+  let '(cstep, st) := match step with
+                      | Some e => cexpr path c e st
+                      | None => ([I OP_MAKE_INT [s_one]], st) end in
+  let cstep := cstep ++ [I OP_BIN_OP_ASSIGN [[43; 61]%N; x]] in
+  let full := cbody ++ cstep in
+  let full := full ++ [I OP_JMP_POP [neg_off (1 + length cond + length full)]] in
+  let st := {| fid := fid st; lreg := lreg st - 1; fbuf := fbuf st |} in
+  (ca ++ [I OP_STORE_FAST [x]] ++ cb_ ++ [I OP_STORE_FAST [endr]] ++ cond
+      ++ [I OP_WHILE_LOOP [sN (length full + 1)]] ++ resolve (length full) (length cstep) 0 full
+      ++ [I OP_DELETE_NAME_SCOPED [x; endr]], st).
+Proof. reflexivity. Qed.
+
 Definition frag_eq (c : nat) (s : stmt) : Prop :=
-  forall il B sl st, ok_stmt il B s = true -> cstmt path c sl s st = (sitems c sl s, st).
+  forall il B sl st, ok_stmt il B s = true -> cstmt path c sl s st = (sitems c (lreg st) sl s, st).
 
 Lemma cblockT_frag : forall c l, Forall (frag_eq c) l ->
-  forall il B sl st, ok_block il B l = true -> cblockT c sl l st = (bitems c sl l, st).
+  forall il B sl st, ok_block il B l = true -> cblockT c sl l st = (bitems c (lreg st) sl l, st).
 Proof.
   intros c. induction l as [|s l IH]; intros HF il B sl st Hok; [reflexivity|].
   inversion HF as [|? ? Hs Hl]; subst. cbn [ok_block] in Hok. apply Bool.andb_true_iff in Hok as [H1 H2].
@@ -215,13 +270,27 @@ Proof.
   - intros cnd b _ Hb il B sl st H. rewrite ok_SWhile in H. okx H.
     rewrite cstmt_SWhile, sitems_SWhile, (cexpr_ok B) by assumption.
     rewrite (cblockT_frag c b Hb true B _ st) by assumption. reflexivity.
-  - intros a b incl step nm col body _ _ _ _ il B sl st H. discriminate.
+  - intros a b incl step nm col body _ _ _ Hbody il B sl st H.
+    destruct nm as [x|]; [|discriminate]. destruct col; [discriminate|].
+    rewrite ok_SFrom in H. okx H.
+    rewrite cstmt_SFrom, sitems_SFrom, (cexpr_ok B) by assumption.
+    assert (Hob : ok_expr B b = true).
+    { unfold ok_expr. destruct b; try discriminate; cbn [simple_expr pure lits_ok used_e forallb] in *.
+      - now rewrite H2.
+      - now rewrite H2. }
+    rewrite (cexpr_ok B) by assumption.
+    cbv zeta. rewrite (cblockT_frag c body Hbody true (x :: B) _ _) by assumption. cbn [lreg fid fbuf].
+    assert (Est : forall stx : cst, {| fid := fid stx; lreg := S (lreg stx) - 1; fbuf := fbuf stx |} = stx).
+    { intros [f l0 fb]. cbn. now rewrite Nat.sub_0_r. }
+    destruct step as [e|].
+    + destruct e; try discriminate. cbn [cexpr step_code pcode map]. cbn [lreg fid fbuf]. rewrite Est. reflexivity.
+    + cbn [step_code]. cbn [lreg fid fbuf]. rewrite Est. reflexivity.
   - intros il B sl st H. reflexivity.
   - intros il B sl st H. reflexivity.
   - intros e _ il B sl st H. discriminate.
 Qed.
 
-Corollary cblockT_ok : forall c l il B sl st, ok_block il B l = true -> cblockT c sl l st = (bitems c sl l, st).
+Corollary cblockT_ok : forall c l il B sl st, ok_block il B l = true -> cblockT c sl l st = (bitems c (lreg st) sl l, st).
 Proof.
   intros c l. apply cblockT_frag. apply Forall_forall. intros s _. apply cstmt_frag.
 Qed.
